@@ -173,6 +173,7 @@ Inductive case :=
 | CActUpd (dim : nat) (P : aparams (T:=float)) (st : astate (T:=float)) (pop : list (aind (T:=float)))
           (invs : list (option fmat)) (rtol : float) (obs : astate (T:=float))
 | CMoParams (dim mu lambda : nat) (obs : mparams (T:=float))
+| CMoInit (dim : nat) (P : mparams (T:=float)) (population : list (fvec * fvec)) (sigma : float) (obs : mstate (T:=float))
 | CMoGen (P : mparams (T:=float)) (st : mstate (T:=float)) (arz : list fvec) (js : list nat) (rtol : float)
          (obs : list (fvec * nat))
 | CMoUpd (P : mparams (T:=float)) (st : mstate (T:=float)) (pop : list (mind (T:=float))) (hv : list nat) (rtol : float)
@@ -201,6 +202,7 @@ Definition check (c : case) : bool :=
       let '(st', aps) := active_update FOps dim P st pop invs in
       astate_close rtol st' obs && inv_contracts rtol dim aps invs
   | CMoParams dim mu lambda obs => mparams_close (mo_defaults FOps dim mu lambda) obs
+  | CMoInit dim P population sigma obs => mstate_close 0 (mo_init FOps dim P population sigma) obs
   | CMoGen P st arz js rtol obs => list_eqb (gen_close rtol) (mo_generate FOps P st arz js) obs
   | CMoUpd P st pop hv rtol obs obs_chosen obs_not_chosen =>
       let '(st', chosen, not_chosen, seen) := mo_update FOps P st pop hv in
